@@ -337,8 +337,21 @@ def run(ctx):
             for k in callers:
                 if nm.endswith("logic_var::" + k):
                     callers[k].add(p)
-    ctx.ob("R3", "set_var_id-callers", callers["set_var_id"] == {E.path}, ctx.where(E),
-           "set_var_id is called from %s (only the clause loop may restore the counter)" % sorted(callers["set_var_id"]))
+    # besides the clause loop, only the designated reset (clear_id, and the query constructors that may call it) may go
+    # through the setter, and then only with the constant 0
+    resetters = {"logic_var::clear_id", "time_out::start_query", "s_complex::make_query"}
+    odd = []
+    for cp in sorted(callers["set_var_id"] - {E.path}):
+        b = cg.nodes[cp]
+        for bb, t in b.calls():
+            nm = t["callee"].get("resolved") or t["callee"]["path"]
+            if nm.endswith("logic_var::set_var_id"):
+                a = t["args"][0] if t["args"] else {}
+                if cp not in resetters or not (a.get("k") == "const" and a.get("int") == 0):
+                    odd.append(cp)
+    ctx.ob("R3", "set_var_id-callers", E.path in callers["set_var_id"] and not odd, ctx.where(E),
+           "set_var_id is called from %s (only the clause loop may restore the counter; a reset to the constant 0 by "
+           "clear_id / the query constructors is the designated reset)" % sorted(callers["set_var_id"]))
     okc = callers["clear_id"] <= {"time_out::start_query", "s_complex::make_query"} and callers["clear_id"]
     ctx.ob("R3", "clear_id-callers", bool(okc), "", "clear_id is called from %s (only query construction / start_query)" % sorted(callers["clear_id"]))
     ok, why, n = True, "", 0
